@@ -304,7 +304,15 @@ def extract_sites(src, f, spans):
         for put in (True, False):
             if got == POLL_DATA % (POLL_DATA_STOP if stop else '', POLL_DATA_PUT if put else ''):
                 ok = True
-    if not ok and got != POLL_DATA % (POLL_DATA_STOP, 'drop(stream);'):
+    # known variant: the chunk's error is converted (and returned by `?`) BEFORE the stream is put back,
+    # i.e. after a failed read the stream is lost
+    alt = POLL_DATA.replace('Poll::Ready(Ok(chunk.map_err(convert_read_error_to_stream_error)?.map(|c|c.bytes)))',
+                            'Poll::Ready(Ok(chunk.map(|c|c.bytes)))') % (
+        POLL_DATA_STOP, 'letchunk=chunk.map_err(convert_read_error_to_stream_error)?;' + POLL_DATA_PUT)
+    f['poll_data_puts_back_on_error'] = True
+    if got == alt:
+        f['poll_data_puts_back_on_error'] = False
+    elif not ok and got != POLL_DATA % (POLL_DATA_STOP, 'drop(stream);'):
         raise AnchorLost('poll_data is not the known statement sequence: ' + got[:200])
 
 
@@ -466,6 +474,7 @@ def render(f):
     L.append('Definition poll_ready_advances_by_written : bool := %s.' % b(f['poll_ready_advances_by_written']))
     L.append('Definition poll_ready_clears_writing : bool := %s.' % b(f['poll_ready_clears_writing']))
     L.append('Definition reset_saturates : bool := %s.' % b(f['reset_saturates']))
+    L.append('Definition poll_data_puts_back_on_error : bool := %s.' % b(f['poll_data_puts_back_on_error']))
     L.append('Definition poll_finish_drains : bool := %s.' % b(f['poll_finish_drains']))
     return '\n'.join(L) + '\n'
 
